@@ -122,6 +122,8 @@ type obsRec struct {
 	DotDot     bool      `json:"dotdot"`
 	Canary     []string  `json:"canary"`
 	Masks      []maskRes `json:"masks"`
+	Masks2     []maskRes `json:"masks2"` // the masked paths as a second program in the same container sees them (after Reset)
+	Second     bool      `json:"second"` // a second program was run
 	Tests      []testRes `json:"tests"`
 	Mi         []miEnt   `json:"mi"` // /proc/<pid>/mountinfo read by the driver just before exec
 	HasMiIn    bool      `json:"hasmiin"`
@@ -400,8 +402,14 @@ func (e *env) probeArgs(cd *caseDirs, c caseRec, outfd int) []string {
 			args = append(args, "T:"+p)
 		}
 	}
+	// masked paths are part of the visible tree: looked at first (M:), then the same modification
+	// attempts as everywhere else (T:)
 	for _, m := range c.MaskChk {
 		args = append(args, "M:"+abs(m))
+		if p := abs(m); !seen[p] {
+			seen[p] = true
+			args = append(args, "T:"+p)
+		}
 	}
 	args = append(args, "C:"+cd.canaryName, "H:"+cd.canary)
 	return args
@@ -572,7 +580,7 @@ func (p *pipeReader) finish() []byte {
 }
 
 func (e *env) runFork(c caseRec) (o obsRec, err error) {
-	o = obsRec{Case: c, SrcFl: e.srcFl, LockFl: e.lockFl, ShareFl: e.shareFl, SrcShared: e.isShared, ProcFacts: procFacts(c), Mi: []miEnt{}, MiIn: []miEnt{}, Tree: []treeEnt{}, Canary: []string{}, Masks: []maskRes{}, Tests: []testRes{}}
+	o = obsRec{Case: c, SrcFl: e.srcFl, LockFl: e.lockFl, ShareFl: e.shareFl, SrcShared: e.isShared, ProcFacts: procFacts(c), Mi: []miEnt{}, MiIn: []miEnt{}, Tree: []treeEnt{}, Canary: []string{}, Masks: []maskRes{}, Masks2: []maskRes{}, Tests: []testRes{}}
 	cd, err := e.prepare(c)
 	if err != nil {
 		return o, err
@@ -661,7 +669,7 @@ func (l *lockedBuf) String() string {
 }
 
 func (e *env) runCont(c caseRec) (o obsRec, err error) {
-	o = obsRec{Case: c, SrcFl: e.srcFl, LockFl: e.lockFl, ShareFl: e.shareFl, SrcShared: e.isShared, ProcFacts: procFacts(c), Mi: []miEnt{}, MiIn: []miEnt{}, Tree: []treeEnt{}, Canary: []string{}, Masks: []maskRes{}, Tests: []testRes{}}
+	o = obsRec{Case: c, SrcFl: e.srcFl, LockFl: e.lockFl, ShareFl: e.shareFl, SrcShared: e.isShared, ProcFacts: procFacts(c), Mi: []miEnt{}, MiIn: []miEnt{}, Tree: []treeEnt{}, Canary: []string{}, Masks: []maskRes{}, Masks2: []maskRes{}, Tests: []testRes{}}
 	cd, err := e.prepare(c)
 	if err != nil {
 		return o, err
@@ -743,6 +751,38 @@ func (e *env) runCont(c caseRec) (o obsRec, err error) {
 	o.Started = true
 	if err := e.fill(&o, cd, c, raw); err != nil {
 		return o, fmt.Errorf("case %d: %v", c.ID, err)
+	}
+	// a second program in the same container (after Reset, as a pooled container is reused):
+	// what does it find at the masked paths the first one tried to modify?
+	if len(c.MaskChk) > 0 {
+		envc.Reset() // its own failures belong to another property
+		pr2, err := newPipeReader()
+		if err != nil {
+			return o, err
+		}
+		args2 := []string{"/vprobe-mounts", "1"}
+		for _, m := range c.MaskChk {
+			args2 = append(args2, "M:"+abs(m))
+		}
+		ctx2, cancel2 := context.WithTimeout(context.Background(), e.timeout)
+		res2 := envc.Execve(ctx2, container.ExecveParam{
+			Args:     args2,
+			Env:      []string{"PATH=/"},
+			Files:    []uintptr{null.Fd(), pr2.w.Fd(), pr2.w.Fd()},
+			ExecFile: e.probe.Fd(),
+			Seccomp:  allowAll,
+		})
+		cancel2()
+		raw2 := pr2.finish()
+		if res2.Status != runner.StatusNormal {
+			return o, fmt.Errorf("case %d: second probe in container ended with %v (%s) out=%q", c.ID, res2.Status, res2.Error, truncate(raw2))
+		}
+		var o2 obsRec
+		if err := e.fill(&o2, cd, c, raw2); err != nil {
+			return o, fmt.Errorf("case %d: second probe: %v", c.ID, err)
+		}
+		o.Masks2 = o2.Masks
+		o.Second = true
 	}
 	return o, nil
 }
